@@ -217,14 +217,12 @@ class SccContext:
       if self.active_caption.get_begin() is None:
         self.active_caption.set_begin(time_code)
 
-      # Ignore PACs for rows 5-11, but get indent from PACs for rows 1-4 and 12-15. (Roll-Up)
+      # Ignore the position of PACs for rows 5-11, but get indent from PACs for rows 1-4 and 12-15. (Roll-Up)
       if pac_row in range(5, 12):
         self.active_caption.set_cursor_at(ROLL_UP_BASE_ROW)
-        self.active_caption.new_caption_text()
-        return
-
-      # Force roll-up paragraph to belong to the same region
-      self.active_caption.set_cursor_at(ROLL_UP_BASE_ROW, pac_indent)
+      else:
+        # Force roll-up paragraph to belong to the same region
+        self.active_caption.set_cursor_at(ROLL_UP_BASE_ROW, pac_indent)
 
       self.active_caption.new_caption_text()
 
